@@ -320,6 +320,8 @@ class Splice:
         self.after = []
         self.tail = []          # before the last non-blank line of the body (a one-line tail expression)
         self.exit = []          # before the closing brace of the body (functions that end without a tail expression)
+        self.loopbody = {}      # ordinal -> lines spliced at the START of the n-th loop's body (right after its `{` line)
+        self.loopend = {}       # ordinal -> lines spliced at the END of the n-th loop's body (before its closing `}` line)
 
 
 def extract_function(src, relpath, container, name, splice, opts, lock=None):
@@ -423,6 +425,22 @@ def extract_function(src, relpath, container, name, splice, opts, lock=None):
         inserts_before_line.setdefault(find_line(pattern, occ, 'before'), []).extend(items)
     for pattern, occ, items in splice.after:
         inserts_after_line.setdefault(find_line(pattern, occ, 'after'), []).extend(items)
+    for ordn, items in list(splice.loopbody.items()) + list(splice.loopend.items()):
+        if ordn < 1 or ordn > len(loops):
+            raise ExtractError('lost anchor: fn `%s` has %d loops, spec refers to loop body %d' % (name, len(loops), ordn))
+    for ordn, items in splice.loopbody.items():
+        kw, ob = loops[ordn - 1]
+        li = body.count('\n', 0, ob)
+        if blines[li].rstrip()[-1:] != '{':
+            raise ExtractError('loop %d of `%s`: code follows the opening brace on the same line' % (ordn, name))
+        inserts_after_line.setdefault(li, []).extend(items)
+    for ordn, items in splice.loopend.items():
+        kw, ob = loops[ordn - 1]
+        cb = match_brace(body, ob)
+        li = body.count('\n', 0, cb)
+        if blines[li].strip() not in ('}', '};'):
+            raise ExtractError('loop %d of `%s`: closing brace is not on its own line' % (ordn, name))
+        inserts_before_line.setdefault(li, []).extend(items)
     if splice.tail:
         k = len(blines) - 2
         while k > 0 and not blines[k].strip():
